@@ -472,9 +472,43 @@ def analyse_sites(prog, want_site=None, which='io'):
                 for v in rule.violations:
                     # witness path
                     v['path'] = []
+                if rule.violations:
+                    sm = state_machine_var(fn)
+                    if sm is not None:
+                        # the outcome is kept in an explicit state variable with three or more states: the class
+                        # domain {<-1, -1, 0, 1, >1} cannot tell the states apart, so the rule cannot decide
+                        raise AnalysisBroken('%s keeps its progress in the state variable %s (%d constants): R1 cannot '
+                                             'follow an explicit state machine (undecided, not a finding)' % (
+                                                 fn.name, sm[0], sm[1]))
                 rec['violations'] = rule.violations
                 rec['engine'] = eng
     return sites, convs
+
+
+def state_machine_var(fn):
+    """(name, number of constants) of a local variable or field of a local struct that is assigned at least three
+    distinct integer constants in fn and is compared with a constant of magnitude >= 2, or None."""
+    assigned = {}
+    compared = set()
+    for ex in all_exprs(fn):
+        for n in walk(ex):
+            if n.k == 'bin' and n.op == '=':
+                cv = const_value(n.a[1])
+                l = strip(n.a[0])
+                if cv is not None and l is not None and l.k in ('var', 'mem'):
+                    root = l
+                    while root is not None and root.k == 'mem' and not root.arrow:
+                        root = strip(root.a[0])
+                    if root is not None and root.k == 'var' and root.dk == 'VarDecl':
+                        assigned.setdefault(show(l), set()).add(cv)
+            if n.k == 'bin' and n.op in ('==', '!='):
+                cv = const_value(n.a[1])
+                if cv is not None and abs(cv) >= 2:
+                    compared.add(show(strip(n.a[0])))
+    for name, vals in sorted(assigned.items()):
+        if len(vals) >= 3 and name in compared:
+            return name, len(vals)
+    return None
 
 
 def breaches(prog, convs):
